@@ -333,6 +333,18 @@ fn public_ops(o: &mut Out) {
                 Err(e) => format!("Err({})", kind(e)),
             });
         }
+        if VER != 1 {
+            // two dozen further messages: a difference that shows for half of the signatures only
+            // (e.g. a skipped low-S normalisation) must not hide behind one lucky message
+            for i in 0..24u8 {
+                let m = [MSG, &[b'#', i][..]].concat();
+                let t = UnsignedToken::<V, Raw>::new(Raw(m)).sign(&sk).map(|t| t.to_string());
+                o.line(&format!("sign.deterministic.{i}"), match &t {
+                    Ok(t) => format!("Ok({t})"),
+                    Err(e) => format!("Err({})", kind(e)),
+                });
+            }
+        }
         let rt = own.as_ref().ok().and_then(|s| s.parse::<SignedToken<V, Raw, Vec<u8>>>().ok()).and_then(|t| t.verify(&pk, &nv).ok()).map(|u| u.claims.0 == MSG && u.footer == FOOTER);
         o.line("sign.own-output-verifies", format!("{rt:?}"));
         o.corpus("tok.public", || own.ok());
